@@ -157,7 +157,7 @@ type rangeInfo struct {
 func (f *fctx) uniq(base string) string {
 	*f.counter++
 	base = strings.Map(func(r rune) rune {
-		if r == '|' || r == ' ' || r == '(' || r == ')' || r == '"' {
+		if r == '|' || r == ' ' || r == '(' || r == ')' || r == '"' || r == '[' || r == ']' || r == '*' || r == ',' || r == '/' || r == ';' || r == '{' || r == '}' {
 			return '_'
 		}
 		return r
